@@ -44,6 +44,28 @@ func (f *fakeIndex) StartBackgroundRebalancing(context.Context) error {
 func (f *fakeIndex) StopBackgroundRebalancing() error { f.calls.Add(1); f.bgOn.Add(-1); return nil }
 func (f *fakeIndex) GetFileSize() uint64              { return f.size }
 
+// rotating is a selection strategy without shared mutable state other than an atomic counter: it proposes a different mode
+// at every evaluation, with full confidence, so that mode transitions (and with them starts and stops of background
+// rebalancing) happen all the time.
+type rotating struct{ n atomic.Int64 }
+
+func (r *rotating) Select(rebalancing.WorkloadFeatures, rebalancing.WorkloadType) rebalancing.Decision {
+	modes := []rebalancing.Mode{rebalancing.ModeLazy, rebalancing.ModeIncremental, rebalancing.ModeNone, rebalancing.ModeIncremental}
+	k := int(r.n.Add(1))
+	// an evaluation takes a while: stop requests and other calls then mostly arrive while one is in flight
+	time.Sleep(time.Duration(20+(k*37)%180) * time.Microsecond)
+	d := rebalancing.Decision{Mode: modes[k%len(modes)], Confidence: 1, Reason: "rotating"}
+	switch d.Mode {
+	case rebalancing.ModeLazy:
+		cfg := structures.DefaultLazyConfig()
+		d.Config = &cfg
+	case rebalancing.ModeIncremental:
+		cfg := structures.DefaultIncrementalConfig()
+		d.Config = &cfg
+	}
+	return d
+}
+
 func (w *worker) runSmart() {
 	n := len(w.c.Threads)
 	reps := w.c.Reps
@@ -67,9 +89,21 @@ func (w *worker) runSmart() {
 		cons := rebalancing.DefaultSafetyConstraints()
 		cons.MinConfidence = float64(w.c.MinConf) / 100
 		cons.MinStabilityPeriod = time.Duration(w.c.StableUS) * time.Microsecond
-		sel := rebalancing.NewConfigSelector(rebalancing.WithSafetyConstraints(cons))
+		selOpts := []rebalancing.SelectorOption{rebalancing.WithSafetyConstraints(cons)}
+		if w.c.Rotate {
+			selOpts = append(selOpts, rebalancing.WithStrategy(&rotating{}))
+		}
+		sel := rebalancing.NewConfigSelector(selOpts...)
 		sr := rebalancing.NewSmartRebalancer(idx, rebalancing.WithDetector(det), rebalancing.WithSelector(sel), rebalancing.WithReevalInterval(iv))
 		var recs, evals, starts atomic.Int64
+		soleDriver := true // start/stop only in thread 0, no Evaluate from user threads
+		for ti, th := range w.c.Threads {
+			for _, op := range th.Ops {
+				if op.K == "eval" || (ti != 0 && (op.K == "start" || op.K == "stop")) {
+					soleDriver = false
+				}
+			}
+		}
 		ctx, cancel := context.WithCancel(context.Background())
 		bodies := make([]func(), n)
 		for i := 0; i < n; i++ {
@@ -87,6 +121,11 @@ func (w *worker) runSmart() {
 							case "stop":
 								if err := sr.Stop(); err != nil {
 									w.invariant("Stop returned %v", err)
+								}
+								// when only this thread drives the life cycle and only the monitor goroutine evaluates, nothing
+								// can switch the background work of the index on again once Stop has returned
+								if soleDriver && idx.bgOn.Load() > 0 {
+									w.invariant("Stop returned while background rebalancing of the index is still switched on (started %d time(s) more than stopped)", idx.bgOn.Load())
 								}
 							case "rec":
 								_ = sr.RecordOperation(rebalancing.OperationType(((op.A % 3) + 3) % 3))
@@ -106,6 +145,20 @@ func (w *worker) runSmart() {
 								m := sr.GetMetrics()
 								if m.TotalOperations < 0 || m.TotalEvaluations < 0 {
 									w.invariant("GetMetrics: negative counters")
+								}
+								// a snapshot is the caller's own value: every field of it is read
+								var sum int64
+								for _, v := range m.OperationsByType {
+									sum += v
+								}
+								for _, v := range m.DecisionsByMode {
+									sum += v
+								}
+								for _, v := range m.DecisionsByWorkload {
+									sum += v
+								}
+								if sum < 0 {
+									w.invariant("GetMetrics: negative per-key counters")
 								}
 							case "mstr":
 								_ = sr.GetMetricsString()
@@ -151,6 +204,9 @@ func (w *worker) runSmart() {
 		m := sr.GetMetrics()
 		if st.Started {
 			w.invariant("rep %d: rebalancer reports Started after Stop returned", rep)
+		}
+		if n := idx.bgOn.Load(); n > 0 { // redundant stops are harmless, an unmatched start is not
+			w.invariant("rep %d: after the last Stop returned, background rebalancing of the index was started %d time(s) more than it was stopped", rep, n)
 		}
 		if m.TotalOperations != recs.Load() {
 			w.invariant("rep %d: metrics count %d operations, %d were recorded", rep, m.TotalOperations, recs.Load())
